@@ -9,7 +9,24 @@ use std::time::Duration;
 
 use microscpi::parser::{self, ParseError};
 use microscpi::{Adapter, Interface, Node, Value};
-use vdev::vsupport::{Arg, Event, Outcome as Scripted, Rec, Ret};
+use vdev::vsupport::{harness, Arg, Event, Outcome as Scripted, Rec, Ret, ALLOCS, TRACK};
+use std::sync::atomic::Ordering;
+
+// counts heap allocations made while TRACK is on (library code under test; harness code switches it off)
+struct Counting;
+unsafe impl std::alloc::GlobalAlloc for Counting {
+    unsafe fn alloc(&self, l: std::alloc::Layout) -> *mut u8 {
+        if TRACK.load(Ordering::Relaxed) { ALLOCS.fetch_add(1, Ordering::Relaxed); }
+        std::alloc::System.alloc(l)
+    }
+    unsafe fn dealloc(&self, p: *mut u8, l: std::alloc::Layout) { std::alloc::System.dealloc(p, l) }
+    unsafe fn realloc(&self, p: *mut u8, l: std::alloc::Layout, n: usize) -> *mut u8 {
+        if TRACK.load(Ordering::Relaxed) { ALLOCS.fetch_add(1, Ordering::Relaxed); }
+        std::alloc::System.realloc(p, l, n)
+    }
+}
+#[global_allocator]
+static GLOBAL: Counting = Counting;
 
 // ------------------------------------------------------------------ case format
 #[derive(Default, Clone, Debug)]
@@ -130,6 +147,7 @@ pub struct Outcome {
     tree: Option<String>,
     unsupported: Option<String>,
     polls: usize,
+    allocs: Option<usize>,
 }
 impl Outcome {
     fn unsupported(what: &str) -> Outcome { let mut o = Outcome::default(); o.unsupported = Some(what.to_string()); o }
@@ -179,6 +197,7 @@ fn outcome_json(id: &str, panic: Option<String>, o: &Outcome) -> String {
     if let Some(r) = &o.parse { s.push_str(&format!(",\"parse\":{}", r)); }
     if let Some(r) = &o.tree { s.push_str(&format!(",\"tree\":{}", r)); }
     if let Some(r) = &o.unsupported { s.push_str(&format!(",\"unsupported\":{}", jstr(r))); }
+    if let Some(a) = o.allocs { s.push_str(&format!(",\"allocs\":{}", a)); }
     s.push_str(&format!(",\"polls\":{}}}", o.polls));
     s
 }
@@ -193,7 +212,7 @@ fn noop_waker() -> Waker {
 
 /// Polls to completion; panics ("hang") after too many polls.
 fn block_on<F: Future>(fut: F, polls: &mut usize) -> F::Output {
-    let mut fut = Box::pin(fut);
+    let mut fut = std::pin::pin!(fut);
     let w = noop_waker();
     let mut cx = Context::from_waker(&w);
     loop {
@@ -300,11 +319,11 @@ fn do_parse<D: Interface + HasRec>(dev: D, case: &Case) -> Outcome {
 #[derive(Default)]
 pub struct PassWriter { out: Vec<u8>, ops: Vec<String> }
 impl microscpi::Write for PassWriter {
-    async fn write_bytes(&mut self, bytes: &[u8]) -> Result<(), microscpi::Error> { self.out.extend_from_slice(bytes); self.ops.push(format!("b{}", bytes.len())); Ok(()) }
-    async fn write_char(&mut self, c: char) -> Result<(), microscpi::Error> { self.out.push(c as u8); self.ops.push("c".into()); Ok(()) }
-    async fn write_str(&mut self, s: &str) -> Result<(), microscpi::Error> { self.out.extend_from_slice(s.as_bytes()); self.ops.push(format!("s{}", s.len())); Ok(()) }
-    async fn write_fmt(&mut self, fmt: core::fmt::Arguments<'_>) -> Result<(), microscpi::Error> { let s = format!("{}", fmt); self.out.extend_from_slice(s.as_bytes()); self.ops.push(format!("f{}", s.len())); Ok(()) }
-    async fn flush(&mut self) -> Result<(), microscpi::Error> { self.ops.push("F".into()); Ok(()) }
+    async fn write_bytes(&mut self, bytes: &[u8]) -> Result<(), microscpi::Error> { harness(|| { self.out.extend_from_slice(bytes); self.ops.push(format!("b{}", bytes.len())); }); Ok(()) }
+    async fn write_char(&mut self, c: char) -> Result<(), microscpi::Error> { harness(|| { self.out.push(c as u8); self.ops.push("c".into()); }); Ok(()) }
+    async fn write_str(&mut self, s: &str) -> Result<(), microscpi::Error> { harness(|| { self.out.extend_from_slice(s.as_bytes()); self.ops.push(format!("s{}", s.len())); }); Ok(()) }
+    async fn write_fmt(&mut self, fmt: core::fmt::Arguments<'_>) -> Result<(), microscpi::Error> { harness(|| { let s = format!("{}", fmt); self.out.extend_from_slice(s.as_bytes()); self.ops.push(format!("f{}", s.len())); }); Ok(()) }
+    async fn flush(&mut self) -> Result<(), microscpi::Error> { harness(|| self.ops.push("F".into())); Ok(()) }
 }
 pub trait OutBytes { fn bytes(&self) -> Vec<u8>; fn ops(&self) -> Vec<String> { Vec::new() } }
 impl OutBytes for PassWriter { fn bytes(&self) -> Vec<u8> { self.out.clone() } fn ops(&self) -> Vec<String> { self.ops.clone() } }
@@ -316,12 +335,16 @@ fn do_run<D: Interface + HasRec, W: microscpi::Write + OutBytes>(mut dev: D, cas
     let input = case.input.clone();
     let mut o = Outcome::default();
     let mut polls = 0;
+    ALLOCS.store(0, Ordering::SeqCst);
     let (rem_len, suffix_ok) = {
+        TRACK.store(true, Ordering::SeqCst);
         let rem = block_on(dev.run(&input, &mut w), &mut polls);
+        TRACK.store(false, Ordering::SeqCst);
         let ok = rem.len() <= input.len() && (rem.is_empty() || std::ptr::eq(rem.as_ptr(), input[input.len() - rem.len()..].as_ptr()));
         (rem.len(), ok)
     };
     o.polls = polls;
+    o.allocs = Some(ALLOCS.load(Ordering::SeqCst));
     o.rem = Some(rem_len);
     if !suffix_ok { o.result = Some("NOT_A_SUFFIX".into()); }
     o.events = dev.rec().events.clone();
@@ -357,6 +380,26 @@ impl ScriptAdapter {
 impl Adapter for ScriptAdapter {
     type Error = i32;
     fn read(&mut self, dst: &mut [u8]) -> impl Future<Output = Result<usize, i32>> {
+        let prev = TRACK.swap(false, Ordering::SeqCst);
+        let r = self.read_inner(dst);
+        TRACK.store(prev, Ordering::SeqCst);
+        r
+    }
+    fn write(&mut self, src: &[u8]) -> impl Future<Output = Result<(), i32>> {
+        let prev = TRACK.swap(false, Ordering::SeqCst);
+        let r = self.write_inner(src);
+        TRACK.store(prev, Ordering::SeqCst);
+        r
+    }
+    fn flush(&mut self) -> impl Future<Output = Result<(), i32>> {
+        let prev = TRACK.swap(false, Ordering::SeqCst);
+        let r = self.flush_inner();
+        TRACK.store(prev, Ordering::SeqCst);
+        r
+    }
+}
+impl ScriptAdapter {
+    fn read_inner(&mut self, dst: &mut [u8]) -> AdFut<usize> {
         let (pend, fault) = self.begin();
         let val = if let Some(e) = fault { self.trace.push(format!("r{}!{}", dst.len(), e)); Err(e) }
         else if self.pos >= self.data.len() && self.ci >= self.chunks.len() { self.trace.push(format!("r{}!eof", dst.len())); Err(-1) }
@@ -371,13 +414,13 @@ impl Adapter for ScriptAdapter {
         };
         AdFut { pend, val: Some(val) }
     }
-    fn write(&mut self, src: &[u8]) -> impl Future<Output = Result<(), i32>> {
+    fn write_inner(&mut self, src: &[u8]) -> AdFut<()> {
         let (pend, fault) = self.begin();
         let val = if let Some(e) = fault { self.trace.push(format!("w{}!{}", hex(src), e)); Err(e) }
         else { self.out.extend_from_slice(src); self.trace.push(format!("w{}", hex(src))); Ok(()) };
         AdFut { pend, val: Some(val) }
     }
-    fn flush(&mut self) -> impl Future<Output = Result<(), i32>> {
+    fn flush_inner(&mut self) -> AdFut<()> {
         let (pend, fault) = self.begin();
         let val = if let Some(e) = fault { self.trace.push(format!("f!{}", e)); Err(e) } else { self.trace.push("f".into()); Ok(()) };
         AdFut { pend, val: Some(val) }
@@ -391,7 +434,11 @@ fn do_process<D: Interface + HasRec, const N: usize>(mut dev: D, case: &Case) ->
         calls: 0, pend: case.pend.clone(), fault: case.fault, trace: Vec::new(), out: Vec::new() };
     let mut o = Outcome::default();
     let mut polls = 0;
+    ALLOCS.store(0, Ordering::SeqCst);
+    TRACK.store(true, Ordering::SeqCst);
     let r = block_on(dev.process::<N, _>(&mut ad), &mut polls);
+    TRACK.store(false, Ordering::SeqCst);
+    o.allocs = Some(ALLOCS.load(Ordering::SeqCst));
     o.polls = polls;
     o.result = Some(match r { Ok(()) => "ok".to_string(), Err(e) => format!("err:{}", e) });
     o.events = dev.rec().events.clone();
